@@ -972,7 +972,9 @@ func (e Engine) Run(t *simrt.Tape, c simrt.Case, x *simrt.Ctx) *simrt.Result {
 	if x.Tier == "thorough" {
 		nInter = 10
 	}
-	if s.FileState == "present" && s.OutPath != "" {
+	if s.FileState == "present" && s.OutPath != "" && os.Getenv("VERIF_CODE_SPAWNS_GOROUTINES") != "" {
+		res.Count("two_instance_skipped_code_spawns_goroutines", 1)
+	} else if s.FileState == "present" && s.OutPath != "" {
 		for i := 0; i < nInter; i++ {
 			if v, rr2, note := e.twoInstances(t, s, files, tmpls, acc, accKnown, res); v != nil {
 				if id := knownFinding(x, v.class, s); id != "" {
